@@ -1,5 +1,6 @@
 SPECIFICATION Spec
 CONSTANTS
   Emit = FALSE
-INVARIANTS ChosenTypeFits Precedence FloatOnlyByDefault DefaultChangesNothing
+  TrustCovers = {"raw"}
+INVARIANTS ChosenTypeFits Precedence FloatOnlyByDefault DefaultChangesNothing ErrorParity TrustIsAboutRawMessages
 CHECK_DEADLOCK FALSE
